@@ -12,7 +12,7 @@ LEVEL = 'exploration'
 RULE = ('cases = estimator (all 17) x {no preprocessor, array preprocessor} x '
         'seeded dataset; per case the complete malformation grammar is '
         'enumerated for every data-taking method the estimator has: points '
-        '(ndim 0/1/3/4, zero rows, zero columns, NaN/+inf/-inf at '
+        '(ndim 0 as numpy scalar / 0-d ndarray / Python float, ndim 1/3/4, zero rows, zero columns, NaN/+inf/-inf at '
         'first/middle/last position, str dtype, object dtype with a string '
         'or None, complex, feature count d+-1 at query time, ragged list, '
         'None), tuples (ndim 0/1/2/4, tuple sizes 1..5 != expected, empty on '
@@ -69,7 +69,8 @@ def _poison(A, where, val):
 def points_grammar(P, at_query, with_prep):
   """(label, value) malformed *points* inputs built from valid P (n,d)."""
   n, d = P.shape
-  g = [('ndim0', np.float64(3.0)),
+  g = [('ndim0', np.float64(3.0)), ('ndim0-ndarray', np.array(3.0)),
+       ('ndim0-python-float', 3.0), ('ndim0-int-ndarray', np.array(7)),
        ('ndim3', P[None]), ('ndim4', P[None, None]),
        ('zero-rows', P[:0]), ('zero-cols', P[:, :0])]
   if not with_prep:
@@ -102,7 +103,8 @@ def points_grammar(P, at_query, with_prep):
 def tuples_grammar(T, at_query, with_prep, t):
   """malformed *tuples* inputs from valid T (n,t,d)."""
   n, _, d = T.shape
-  g = [('ndim0', np.float64(3.0)), ('ndim4', T[None]),
+  g = [('ndim0', np.float64(3.0)), ('ndim0-ndarray', np.array(3.0)),
+       ('ndim0-python-float', 3.0), ('ndim4', T[None]),
        ('empty-axis0', T[:0]), ('empty-axis1', T[:, :0]),
        ('empty-axis2', T[:, :, :0])]
   if not with_prep:
